@@ -609,6 +609,12 @@ func checkTotalOrderComparators(p *Prog, r *Report) {
 					concat = true
 				}
 			})
+			// shape: a lexicographic chain of symmetric comparisons — every branch is on a comparison of the same projection
+			// of the two elements, or on the result of such a comparison against zero; anything else (switching between two
+			// orders depending on what the elements look like) need not be a total order
+			if why := comparatorShape(cmp); why != "" && !concat {
+				r.Viol(rule, fnQual(fn)+":comparator-shape", p.pos(cl.Pos()), "the comparator handed to "+name+" in "+fnShort(fn)+" is not a plain lexicographic chain of comparisons of the same projection of both elements ("+why+"): mixing orders depending on the elements' content is in general not a total order (ties and cycles), and the slice being sorted comes from map iteration")
+			}
 			r.Check(!concat, rule, fnQual(fn)+":comparator", p.pos(cl.Pos()), "the comparator orders by the key, an injective rendering of it, or its fields in turn",
 				"the comparator handed to "+name+" in "+fnShort(fn)+" compares string concatenations of fields: different elements can produce the same text (`A::B`+`::`+`x` vs `A`+`::`+`B::x`), tie, and keep the order map iteration gave them — the output is no longer the same on every run")
 		}
@@ -616,4 +622,140 @@ func checkTotalOrderComparators(p *Prog, r *Report) {
 	if n == 0 {
 		r.Undec(rule, "comparators", "-", "no comparator-based sort found (anchors vanished)")
 	}
+}
+
+// comparatorShape returns "" when every branch condition of the comparator is (a) a comparison whose two operands are
+// the same projection of the first and of the second parameter, or (b) a comparison of such a comparison's result
+// (strings.Compare, cmp.Compare, …) with a constant.
+func comparatorShape(cmp *ssa.Function) string {
+	if len(cmp.Params) < 2 {
+		return ""
+	}
+	// closures over sort.Slice index parameters: i, j index the same slice — projections are s[i].f / s[j].f
+	var shape func(v ssa.Value, d int) (string, int)
+	shape = func(v ssa.Value, d int) (string, int) {
+		// returns the structural shape with parameters abstracted, and which parameter (0/1/-1 none/2 both) it depends on
+		if d > 8 {
+			return "…", -1
+		}
+		merge := func(a, b int) int {
+			if a == -1 {
+				return b
+			}
+			if b == -1 || a == b {
+				return a
+			}
+			return 2
+		}
+		switch x := v.(type) {
+		case *ssa.Parameter:
+			for i, pr := range cmp.Params {
+				if pr == x {
+					return "P", i
+				}
+			}
+			return "param", -1
+		case *ssa.Const:
+			return x.String(), -1
+		case *ssa.FreeVar:
+			return "free:" + x.Name(), -1
+		case *ssa.Field:
+			s, w := shape(x.X, d+1)
+			return s + ".#" + itoa(x.Field), w
+		case *ssa.FieldAddr:
+			s, w := shape(x.X, d+1)
+			return s + ".&" + itoa(x.Field), w
+		case *ssa.IndexAddr:
+			s, w := shape(x.X, d+1)
+			s2, w2 := shape(x.Index, d+1)
+			return s + "[" + s2 + "]", merge(w, w2)
+		case *ssa.UnOp:
+			s, w := shape(x.X, d+1)
+			return x.Op.String() + s, w
+		case *ssa.Convert:
+			return shape(x.X, d+1)
+		case *ssa.ChangeType:
+			return shape(x.X, d+1)
+		case *ssa.MakeInterface:
+			return shape(x.X, d+1)
+		case *ssa.Extract:
+			s, w := shape(x.Tuple, d+1)
+			return s + "#" + itoa(x.Index), w
+		case *ssa.Call:
+			name := calleeName(x)
+			w := -1
+			var parts []string
+			for _, a := range x.Call.Args {
+				s, wa := shape(a, d+1)
+				parts = append(parts, s)
+				w = merge(w, wa)
+			}
+			if x.Call.IsInvoke() {
+				s, wa := shape(x.Call.Value, d+1)
+				parts = append([]string{s}, parts...)
+				w = merge(w, wa)
+			}
+			return name + "(" + strings.Join(parts, ",") + ")", w
+		case *ssa.Alloc:
+			// a spilled parameter copy
+			if refs := x.Referrers(); refs != nil {
+				for _, rf := range *refs {
+					if st, ok := rf.(*ssa.Store); ok && st.Addr == x {
+						return shape(st.Val, d+1)
+					}
+				}
+			}
+		}
+		return v.Name(), -1
+	}
+	isCmpResult := func(v ssa.Value) bool {
+		seen := map[ssa.Value]bool{}
+		var rec func(v ssa.Value) bool
+		rec = func(v ssa.Value) bool {
+			if seen[v] {
+				return true
+			}
+			seen[v] = true
+			switch x := v.(type) {
+			case *ssa.Call:
+				if len(x.Call.Args) == 2 {
+					s0, w0 := shape(x.Call.Args[0], 0)
+					s1, w1 := shape(x.Call.Args[1], 0)
+					return s0 == s1 && w0 == 0 && w1 == 1 || (s0 == s1 && w0 == 1 && w1 == 0)
+				}
+			case *ssa.Phi:
+				for _, e := range x.Edges {
+					if !rec(e) {
+						return false
+					}
+				}
+				return true
+			}
+			return false
+		}
+		return rec(v)
+	}
+	why := ""
+	forEachInstr(cmp, func(in ssa.Instruction) {
+		iff, ok := in.(*ssa.If)
+		if !ok || why != "" {
+			return
+		}
+		fg := flattenGuard(Guard{Cond: iff.Cond, Pol: true})
+		bo, ok := fg.Cond.(*ssa.BinOp)
+		if !ok {
+			why = "a branch on " + fg.Cond.String()
+			return
+		}
+		s0, w0 := shape(bo.X, 0)
+		s1, w1 := shape(bo.Y, 0)
+		symmetric := s0 == s1 && ((w0 == 0 && w1 == 1) || (w0 == 1 && w1 == 0))
+		_, cy := bo.Y.(*ssa.Const)
+		_, cx := bo.X.(*ssa.Const)
+		onResult := (cy && isCmpResult(bo.X)) || (cx && isCmpResult(bo.Y))
+		if !symmetric && !onResult {
+			why = "a branch on `" + bo.String() + "`, which is neither a comparison of the same projection of both elements nor a test of such a comparison's result"
+		}
+	})
+	return why
 }
